@@ -75,6 +75,24 @@ struct ScopeHistory {
 
    std::string where() { return J().s("route", route).n("declarations", (long long)model.size()).s("history", trace.substr(0, 400)).str(); }
 
+   // one look-up (name, then type) compared with the model; used around every declaration so that a look-up made just
+   // before a declaration (possibly a miss) and the one made right after it are both observed, in that order
+   void probe(const Name* n, const Type* t, const char* when)
+   {
+      const Scope& S = *scope;
+      ctx().count("probes_around_declarations");
+      const bool declared = per_name.count(n) != 0;
+      auto ovl = S[*n];
+      auto V = [&](const std::string& key, const std::string& msg) { ctx().viol(key + ":" + when + ":" + route, msg, where()); };
+      if (ovl.is_valid() != declared) { V(declared ? "lookup:declared-name-not-found" : "lookup:undeclared-name-found", "name look-up disagrees with the declarations entered"); return; }
+      if (!declared) return;
+      const Decl* first = nullptr;
+      if (auto g = groups.find(std::make_pair(n, t)); g != groups.end()) first = g->second.front();
+      auto got = ovl.get()[*t];
+      if (got.is_valid() != (first != nullptr)) V(first ? "select:declared-type-not-found" : "select:undeclared-type-found", "overload[type] validity disagrees with the declarations entered");
+      else if (first && &got.get() != first) V("select:not-first-declaration", "overload[type] is not the first declaration entered with that name and type");
+   }
+
    // add one declaration, honouring "each (name,type) pair is used by one declaration kind"
    void declare()
    {
@@ -96,6 +114,8 @@ struct ScopeHistory {
          if (k == FUNDECL && t->category != Category_code::Function) return;
       } else kind_of_pair[key] = k;
       const Decl* d = nullptr;
+      if (rng.chance(70)) { probe(n, t, "before"); if (rng.chance(30)) probe(n, t, "before"); }
+      if (rng.chance(20)) probe(rng.pick(W.names), t, "before");
       const bool via_region = region != nullptr && rng.chance(50);
       switch (k) {
       case VAR: d = via_region ? region->declare_var(*n, *t) : scope->make_var(*n, *t); break;
@@ -116,6 +136,8 @@ struct ScopeHistory {
       grp.push_back(d);
       ++per_name[n];
       if (d->category != kind_cat[k]) ctx().viol(std::string("decl-category:") + kind_name[k], "declaration has the wrong category", where());
+      if (rng.chance(85)) probe(n, t, "after");
+      if (rng.chance(25)) probe(n, rng.pick(W.plain_types), "after");
    }
 
    void compare()
@@ -139,7 +161,10 @@ struct ScopeHistory {
       std::vector<const Type*> all_types(W.plain_types.begin(), W.plain_types.end());
       for (auto t : W.fun_types) all_types.push_back(t);
       for (auto t : W.forall_types) all_types.push_back(t);
-      for (auto n : W.names) {
+      std::vector<const Name*> name_order(W.names.begin(), W.names.end());
+      for (std::size_t i = name_order.size(); i > 1; --i) std::swap(name_order[i - 1], name_order[W.rng.below(i)]);
+      for (std::size_t i = all_types.size(); i > 1; --i) std::swap(all_types[i - 1], all_types[W.rng.below(i)]);
+      for (auto n : name_order) {
          const bool declared = per_name.count(n) != 0;
          auto ovl = S[*n];
          ctx().count("name_lookups");
@@ -341,7 +366,7 @@ static void body(Ctx& C)
    C.assume("each (name,type) pair is used by one declaration kind, as the property's quantifier states");
    C.assume("names inside one parameter list / enumeration are pairwise distinct");
    for (int k = 0; k < NKIND; ++k) C.need(std::string("declared:") + kind_name[k]);
-   C.need("redeclarations"); C.need("name_lookups"); C.need("type_lookups"); C.need("table_validations");
+   C.need("redeclarations"); C.need("probes_around_declarations"); C.need("name_lookups"); C.need("type_lookups"); C.need("table_validations");
    C.need("members_checked:parameter"); C.need("members_checked:enumerator"); C.need("members_checked:base"); C.need("members_checked:eh-parameter");
    Rng seeds(C.seed);
    const int nshort = C.thorough ? 1500 : 50;
